@@ -315,10 +315,17 @@ func (kr *KeyRegistry) LatestDataKey() (*pb.DataKey, error) {
 	// validKey return datakey if the last generated key duration less than
 	// rotation duration.
 	validKey := func() (*pb.DataKey, bool) {
+		// There is a key to reuse only if one has been generated. On a fresh registry
+		// lastCreated is zero, and a rotation duration longer than the time since the Unix
+		// epoch must not report the missing key as valid: a nil data key means plain text.
+		dk, ok := kr.dataKeys[kr.nextKeyID]
+		if !ok {
+			return nil, false
+		}
 		// Time difference from the last generated time.
 		diff := time.Since(time.Unix(kr.lastCreated, 0))
 		if diff < kr.opt.EncryptionKeyRotationDuration {
-			return kr.dataKeys[kr.nextKeyID], true
+			return dk, true
 		}
 		return nil, false
 	}
